@@ -608,6 +608,10 @@ def build(family: str, info: dict, rng, workdir: str, tier: str = "quick", want:
         if mode == "disabled":
             if rng.random() < 0.7:
                 cfg["enableTrustZone"] = False
+                if tz_supported(family) and rng.random() < 0.35:
+                    # a preset file left over in the option set: "enableTrustZone: false" is what decides
+                    cfg["trustZonePresetFile"] = tz_preset(rng, family, d, want.get("tz_form"), b.revision)[0]
+                    sig.append("tz-leftover-preset")
         else:
             if not mandatory or rng.random() < 0.5:
                 cfg["enableTrustZone"] = True
